@@ -581,8 +581,38 @@ def rule_k(R, ctx, rid="C16.k"):
         R.floor(rid, "cursor advances in %s" % path, n, 2)
 
 
+APPEND_ONLY_USERS = {
+    "yrs::ids::IdRanges::insert_with": "pieces cut out of the sorted entry list in one left-to-right sweep",
+    "yrs::ids::IdRanges::merge": "two-pointer sweep over two sorted lists: pieces are produced in ascending order",
+}
+
+
+def rule_n(R, ctx, rid="C16.n"):
+    Y = ctx.yrs
+    R.rule(rid, "R-OWN who may append: push_coalesced looks at the LAST stored range only, so it is right only for pieces that arrive in "
+                "ascending order — its callers are a frozen table (the sweeps of insert_with and merge, one line of reason each). "
+                "Constructors that take ranges in the caller's order (IdRanges::from_ranges behind IdSet::from_iter) go through the "
+                "order-insensitive IdRanges::insert for every element: `from_iter([5..7, 1..3])` must contain clock 1")
+    users = callers_of(Y, "yrs::ids::push_coalesced")
+    R.floor(rid, "functions using push_coalesced", len(users), 2)
+    for root in sorted(users):
+        R.ob(rid, Y.fns[root], "append-only-user", root in APPEND_ONLY_USERS,
+             APPEND_ONLY_USERS.get(root, "appends with push_coalesced although nothing establishes that its pieces arrive in ascending order "
+                                         "(not in the table of sweeps): a range that starts before the last stored one is absorbed or dropped"))
+    fr = [f for f in Y.find(r"^yrs::ids::IdRanges(<.*>)?::from_ranges$") if f.mir]
+    R.floor(rid, "IdRanges::from_ranges", len(fr), 1)
+    for f in fr:
+        v = FnView(f)
+        ins = f.calls_to("re:^yrs::ids::IdRanges(<.*>)?::insert$")
+        in_loop = [c for c in ins if f.cfg().in_loop(c.bb)]
+        elem = [c for c in in_loop if term_has_call(v.arg(c, 1, 10), "re:Iterator>::next$") or term_has_call(v.arg(c, 1, 10), "re:Iterator::next$")]
+        R.ob(rid, f, "order-insensitive", bool(elem), "every element of the caller's sequence goes through IdRanges::insert: %s" % bool(elem),
+             ins[0].loc() if ins else None)
+
+
 def check(ctx, R):
     from . import shared as _sh
+    R.run("C16.n", rule_n, ctx)
     R.run("C16.m", lambda R, c: _sh.api_delegations(
         R, c, "C16.m", _sh.IDSET_DELEGATIONS,
         "R-PROV the thin layer of the id sets: every IdSet operation (contains, get, is_empty, len, merge / diff / intersect and "
